@@ -55,3 +55,24 @@ macro_rules! for_each_shipped_te {
         $m!(ark_bls12_377::g1::Config, "bls12_377.G1.TE", false, 3);
     };
 }
+
+/// Configurations that no list of "the curves" names: the SWU-isogenous helper curves (private modules of their
+/// crates, reachable only through `WBConfig::IsogenousCurve`; own coefficients, cofactor and generator; the one of
+/// bls12_377 G2 has a multi-limb cofactor whose lowest limb is 1) and the copies kept in test-curves.
+#[macro_export]
+macro_rules! for_each_helper_sw {
+    ($m:ident) => {
+        $m!(<ark_bls12_381::g1::Config as ark_ec::hashing::curve_maps::wb::WBConfig>::IsogenousCurve, "bls12_381.G1.iso", false, 3);
+        $m!(<ark_bls12_381::g2::Config as ark_ec::hashing::curve_maps::wb::WBConfig>::IsogenousCurve, "bls12_381.G2.iso", false, 8);
+        $m!(<ark_bls12_377::g1::Config as ark_ec::hashing::curve_maps::wb::WBConfig>::IsogenousCurve, "bls12_377.G1.iso", false, 3);
+        $m!(<ark_bls12_377::g2::Config as ark_ec::hashing::curve_maps::wb::WBConfig>::IsogenousCurve, "bls12_377.G2.iso", false, 8);
+        $m!(ark_test_curves::secp256k1::Config, "test.secp256k1", false, 1);
+    };
+}
+
+#[macro_export]
+macro_rules! for_each_helper_te {
+    ($m:ident) => {
+        $m!(ark_test_curves::ed_on_bls12_381::EdwardsConfig, "test.ed_on_bls12_381", false, 1);
+    };
+}
